@@ -124,6 +124,9 @@ class HttpxTransport:
         """
         Prepares headers for an HTTP request, incorporating default headers,
         request-specific headers, and authentication.
+
+        Query parameters and cookies set by the auth plugin (e.g. ApiKeyAuth with location
+        "query" or "cookie") are stored in `current_request_kwargs`.
         """
         # Initialize headers for the current request
         prepared_headers: dict[str, str] = {}
@@ -137,13 +140,19 @@ class HttpxTransport:
             merge_headers(prepared_headers, current_request_kwargs["headers"])
 
         # 3. Apply authentication plugin or bearer token (which can further modify headers)
-        # We pass a temporary request_args dict containing only the headers to the auth plugin,
-        # as the auth plugin might expect other keys which are not relevant for header preparation.
-        # The auth plugin is expected to modify the 'headers' key in the passed dict.
-        temp_request_args_for_auth = {"headers": prepared_headers.copy()}
+        # We pass a temporary request_args dict containing the headers and the caller's params and cookies
+        # to the auth plugin. The auth plugin is expected to modify the 'headers' key in the passed dict;
+        # it may also set 'params' or 'cookies' (API key in the query string or in a cookie).
+        temp_request_args_for_auth: dict[str, Any] = {"headers": prepared_headers.copy()}
+        for key in ("params", "cookies"):
+            if current_request_kwargs.get(key) is not None:
+                temp_request_args_for_auth[key] = current_request_kwargs[key]
 
         if self._auth is not None:
             authenticated_args = await self._auth.authenticate_request(temp_request_args_for_auth)
+            for key in ("params", "cookies"):
+                if key in authenticated_args:
+                    current_request_kwargs[key] = authenticated_args[key]
             # Ensure 'headers' key exists and is a dict after authentication
             if "headers" in authenticated_args and isinstance(authenticated_args["headers"], dict):
                 prepared_headers = authenticated_args["headers"]
@@ -182,11 +191,12 @@ class HttpxTransport:
             httpx.HTTPError: For network errors or invalid responses.
             HTTPError: For non-2xx HTTP responses.
         """
-        # Prepare request arguments, excluding headers initially
-        request_args: dict[str, Any] = {k: v for k, v in kwargs.items() if k != "headers"}
-
         # This method handles default headers, request-specific headers, and authentication
+        # (params and cookies set by the auth plugin are put into kwargs)
         prepared_headers = await self._prepare_headers(kwargs)
+
+        # Prepare request arguments, excluding the caller's headers
+        request_args: dict[str, Any] = {k: v for k, v in kwargs.items() if k != "headers"}
         request_args["headers"] = prepared_headers
 
         response = await self._client.request(method, url, **request_args)
